@@ -36,6 +36,16 @@ def matching_params(preset, correction="default_ont"):
     return a
 
 
+def construction_params(preset="default", construction="default_ont"):
+    """matching + model-construction parameters, both produced by the real isoquant.set_* functions"""
+    import isoquant
+    a = matching_params(preset)
+    a.model_construction_strategy, a.graph_clustering_distance, a.report_novel_unspliced = construction, None, None
+    a.no_model_construction, a.polya_requirement, a.report_canonical, a.debug = False, "auto", "auto", False
+    isoquant.set_model_construction_options(a)
+    return a
+
+
 # name -> list of (transcript, gene, strand, exons)
 LOCI = {
     "single": [("T1", "G1", "+", [(1000, 1200), (2000, 2150), (3000, 3300)])],
